@@ -3,6 +3,7 @@
 Require Import Sedpack.Model.Base Sedpack.Generated.GenFiller Sedpack.Model.Filler.
 Require Import Sedpack.Proofs.FillerProofs Sedpack.Proofs.FillerExact.
 Require Import Sedpack.Generated.GenMerge Sedpack.Model.Meta Sedpack.Proofs.OrderProofs.
+Require Import Sedpack.Proofs.IterProofs Sedpack.Proofs.ChainProofs Sedpack.Proofs.BatchProofs Sedpack.Proofs.BatchSim.
 Require Import Sedpack.Generated.GenIter Sedpack.Model.Iter Sedpack.Model.PipeBase Sedpack.Generated.GenPipeline Sedpack.Proofs.PipelineProofs.
 
 (** Within one filler context the shards recorded for a split, concatenated in the order in
@@ -48,6 +49,15 @@ Theorem c03_rust_pass_in_order :
   anr path ex read process pickA permA 0 hp paths = spec path ex read process hp paths.
 Proof. exact anr_ordered. Qed.
 Print Assumptions c03_rust_pass_in_order.
+
+(** Over ANY stream of paths (finite, endless, shuffled or not) the unshuffled concurrent reader, whatever its batch size, hands over at
+    every position exactly what the unshuffled synchronous reader hands over: thread count does not influence the order. *)
+Theorem c03_concurrent_reader_equals_sync_reader :
+  forall (path ex : Type) (psrc : @source path) (read : path -> list ex) (T : nat), 1 <= T -> (forall p, 1 <= length (read p)) ->
+  forall (k : nat) (s0 : s_state psrc),
+    nth_out (batch_source path ex psrc read T) k (batch_init path ex psrc s0) = nth_out (chain_source path ex psrc read) k (chain_init path ex psrc s0).
+Proof. exact batch_equals_chain_init. Qed.
+Print Assumptions c03_concurrent_reader_equals_sync_reader.
 
 Theorem c03_nonvacuous :
   let ops := [WWrite Train None true; WWrite Test None true; WWrite Train None true; WWrite Train None false;
